@@ -14,11 +14,12 @@ pub mod pathstack;
 pub mod pktline;
 pub mod refstore;
 pub mod selftest;
+pub mod signals;
 pub mod wtstream;
 pub mod zstream;
 
 pub fn all() -> Vec<&'static dyn Scenario> {
-    vec![&selftest::SelfTest, &parallel::Parallel, &refstore::RefStore, &pktline::PktLine, &pathstack::PathStack, &zstream::ZStream, &locks::Locks, &odb::OdbRepack, &loose::LooseStore, &wtstream::WtStream, &packing::PackIngest, &index_threads::IndexThreads]
+    vec![&selftest::SelfTest, &parallel::Parallel, &refstore::RefStore, &pktline::PktLine, &pathstack::PathStack, &zstream::ZStream, &locks::Locks, &odb::OdbRepack, &loose::LooseStore, &wtstream::WtStream, &packing::PackIngest, &index_threads::IndexThreads, &signals::Signals]
 }
 
 /// Which scenario decides a property.
